@@ -87,7 +87,9 @@ pub fn check_one(case: &Case, data: &[u8], out: &mut Outcome, family: &str) -> b
             *why != Reject::Eob
         }
         (Ok(v), Err(why)) => {
-            out.violate(&format!("accepts-invalid:{:?}:{}", why, case.name), format!("{} from {}: accepted as {:?}, reference rejects ({:?})", case.name, hex(data), v, why), replay());
+            // an accepted invalid value may not even be printable (a String that is not UTF-8)
+            let shown = catch_unwind(AssertUnwindSafe(|| format!("{:?}", v))).unwrap_or_else(|_| "<a value that cannot be formatted>".to_owned());
+            out.violate(&format!("accepts-invalid:{:?}:{}", why, case.name), format!("{} from {}: accepted as {}, reference rejects ({:?})", case.name, hex(data), shown, why), replay());
             true
         }
         (Err(e), Ok((ev, _))) => {
@@ -505,6 +507,44 @@ pub fn run(p: &Params) -> Outcome {
                     out.count("duplicate_key_cases", 1);
                 }
             }
+        }
+        // 5. strings, position by position: an ASCII string of every length 0..=96 with one byte at every position replaced by
+        //    each kind of byte that is not valid UTF-8 there (must be refused), or two bytes replaced by a valid two-byte
+        //    character (must be accepted) - decoders that validate in words / blocks have seams at multiples of 8 and 16
+        for len in 0..=96usize {
+            if len % shards != shard {
+                continue;
+            }
+            let base: Vec<u8> = (0..len).map(|i| b'a' + (i % 26) as u8).collect();
+            let wrap = |name: &str, body: &[u8]| -> Vec<u8> {
+                let mut d = Vec::new();
+                let size = refmodel::enc_varuint(body.len() as u128).unwrap();
+                match name {
+                    "String" => { d.extend(&size); d.extend(body); }
+                    "Vec<String>" => { d.push(1 << 2); d.extend(&size); d.extend(body); }
+                    _ => { d.extend([1u8 << 2, b'p']); d.extend(&size); d.extend(body); d.push(0xFC); } // GeneratedFile { path: "p", contents }
+                }
+                d
+            };
+            for case in table.iter().filter(|c| matches!(c.name, "String" | "Vec<String>" | "GeneratedFile")) {
+                check_one(case, &wrap(case.name, &base), &mut out, "string-positions");
+                for pos in 0..len {
+                    for bad in [0x80u8, 0xBF, 0xC3, 0xE2, 0xF0, 0xFF] {
+                        let mut body = base.clone();
+                        body[pos] = bad;
+                        check_one(case, &wrap(case.name, &body), &mut out, "string-positions");
+                        out.count("string_position_cases", 1);
+                    }
+                    if pos + 1 < len {
+                        let mut body = base.clone();
+                        body[pos] = 0xC3;
+                        body[pos + 1] = 0xA9;
+                        check_one(case, &wrap(case.name, &body), &mut out, "string-positions");
+                        out.count("string_position_cases", 1);
+                    }
+                }
+            }
+            out.nontrivial += (len * 7 * 3) as u64;
         }
         // 4. lying size prefixes (functional side; cost is measured in the single-threaded phase)
         if shard == 0 {
